@@ -71,6 +71,20 @@ CHECKS = {
         "Trusted: Coq kernel; Reals axioms; hand-written clip models tied by exact differential check. NOT proved, explored only: CartPole margin between termination threshold and bound, finiteness of diffrax/MJX outputs, MuJoCo/G1 membership, independence from Python-side state.",
         "DESIGN.md §5 C02",
     ),
+    "C14": (
+        "Coq proof (nested induction over Dict/Tuple spaces: contains <-> member, samples/canonical are members, flatten size and injectivity, structural equality <-> eqb, eq -> equal hash keys, Gymnasium round trip) + exact differential check of real lerax spaces evaluated in Coq",
+        "20 theorems, all closed under the global context, for all space constructions incl. infinite bounds and arbitrary nesting and all candidate values incl. NaN, foreign and malformed ones; sample() is proved a member for every draw satisfying the primitive samplers' interface and the masked choice is proved never to pick a masked-out index for a model of cumsum+searchsorted. "
+        "Tie: ~4000 contains/sample/canonical/flatten/==/hash/round-trip observations on random nested spaces per run.",
+        "Trusted: Coq kernel; hand-written model tied by exact differential check; PRNG primitives staying inside their interface, float rounding in Box.sample/canonical and Gymnasium's float32 cast of bounds are explored, not proved.",
+        "DESIGN.md §5 C14",
+    ),
+    "C09": (
+        "Coq proof (index bijection for flattening; partition theorem for chunks of ANY permutation; gather alignment on struct-of-arrays; distinct epoch key paths; train as fold over index rows) + exact correspondence with the real buffer API and PPO.train (gradient tagging) evaluated in Coq",
+        "29 theorems, closed under the global context, for all N, T, B >= 1 and every permutation: rows disjoint, in range, exactly floor(N/B)*B samples used, fewer than B dropped; every field of a minibatch row comes from one sample; flatten neither loses nor duplicates; per-epoch shuffle keys pairwise distinct; each sample visited at most num_epochs times (exactly, when B divides N). "
+        "Tie: real flatten_axes/batch_indices/gather/batches/sample on id-carrying pytree buffers; PPO.train end to end with per-sample visit counts recovered by gradient tagging.",
+        "Trusted: Coq kernel; jr.permutation returns a permutation / jr.choice(replace=False) distinct indices (oracles in the theorems, checked on every case); moveaxis/reshape/take semantics tied by id comparison; the end-to-end part swaps Adam for SGD(1.0) to decode visits.",
+        "DESIGN.md §5 C09",
+    ),
 }
 
 NOT_YET = "check not built yet in this round (planned: see DESIGN.md §5)"
